@@ -15,9 +15,6 @@ tables / functions across an effectful sub-expression, `refEqOK`):
                       effectful (`tostring` may run `__tostring`);
 * `refEqOK`         — at every `==`/`~=` whose sides both evaluate to `Table` (or both to `Function`),
                       both sides are declared side-effect free.
-
-`singleOK e` is the (semantics-side) condition of `single_sound`: the reference semantics does not
-truncate `e<<T>>`, so an instantiation directly over a call / `...` is excluded.
 -/
 namespace DarkluaModel.C08
 open DarkluaModel.Evaluator
@@ -83,17 +80,5 @@ mutual
     | .named _ v :: rest => h8 E v && h8Entries E rest
     | .keyed k v :: rest => h8 E k && h8 E v && h8Entries E rest
 end
-
-/-- can the reference semantics return several values for `e<<T>>`? (it evaluates `e` untruncated) -/
-def multiShape : Expr → Bool
-  | .call _ _ _ _ => true
-  | .vararg => true
-  | .inst e _ => multiShape e
-  | _ => false
-
-/-- side condition of `single_sound` -/
-def singleOK : Expr → Bool
-  | .inst e _ => !multiShape e
-  | _ => true
 
 end DarkluaModel.C08
